@@ -24,6 +24,9 @@ import (
 
 const shortenedPrefix = "_"
 
+// hashTextLen is the length of the base64 (raw URL encoding) text of a SHA-256 hash.
+const hashTextLen = 43
+
 // MakeUniqueID uses a secure hash to create a unique ID from content.
 // The hash is prefixed with "<prefix>:".
 func MakeUniqueID(prefix, content string) string {
@@ -53,10 +56,12 @@ func GetLengthLimitedID(fixedPrefix, suffix string, maxLength int) string {
 	prefixLen := len(fixedPrefix)
 	suffixLen := len(suffix)
 	totalLen := prefixLen + suffixLen
-	if totalLen > maxLength || (totalLen == maxLength && suffix[0:1] == shortenedPrefix) {
-		// Either it's just too long, or it's exactly the right length but it happens to
-		// start with the character that we use to denote a shortened string, which could
-		// result in a clash.  Hash the value and truncate...
+	// A shortened name is the prefix, the marker and as much of the hash as fits.
+	shortenedLen := min(maxLength, prefixLen+len(shortenedPrefix)+hashTextLen)
+	if totalLen > maxLength || (totalLen == shortenedLen && suffix[0:1] == shortenedPrefix) {
+		// Either it's just too long, or it's exactly the length of a shortened name and it
+		// happens to start with the character that we use to denote a shortened string,
+		// which could result in a clash.  Hash the value and truncate...
 		hasher := sha256.New()
 		_, err := hasher.Write([]byte(suffix))
 		if err != nil {
